@@ -273,6 +273,15 @@ inline Problem genProblem(Rng &r, int order, int dim, int N, const GenOpts &o = 
                 p.P(i, j) = 2.0 * r.normal();
         break;
     }
+    // standing starts / stops: individual boundary vectors exactly zero while the others are not
+    if (dc != 1 && dc != 5 && r.coin(0.2))
+        for (int d = 1; d <= s - 1; ++d)
+        {
+            if (r.coin(0.4))
+                p.bc.s(d).setZero();
+            if (r.coin(0.4))
+                p.bc.e(d).setZero();
+        }
     // fields the order does not use also get values (they must be ignored by the library)
     if (r.coin(0.3))
     {
